@@ -204,7 +204,11 @@ def read_to_string_rules(facts, rep, w, D, rule="R04.5"):
                 n += 2
                 rep.ob(rule, b.id, "reads from self.open_file()", okr, fmt(recv)[:60], s.line)
                 rep.ob(rule, b.id, "only after a file-type guard", okt, "", s.line)
-    return n
+    # the content is whatever the handle yields up to its end: a read bounded by the length metadata() reported a moment ago
+    # (read_exact / take(len)) returns a value the file never had when it was rewritten in between
+    rep.ob(rule, b.id, "read_to_string reads the handle to its end", n >= 2, "" if n >= 2 else
+           "no Read::read_to_string on the opened handle: the read is bounded by something else than the end of the file", b.span)
+    return n + 1
 
 
 def run(facts, rep, tier, ctx):
@@ -222,6 +226,9 @@ def run(facts, rep, tier, ctx):
     rep.floor("generic-route obligations", n, 16)
     n = c09.table_u(facts, rep, ws, "R04.4u", only=("append_file",))
     n += overlay_read_delegation(facts, rep, ws)
+    # ... and the resolved path is the first layer that has the file: a layer that fails to answer is an error, not "absent"
+    # (skipping it serves a lower layer's stale bytes)
+    n += c09.resolver_rules(facts, rep, ws, "R04.4r")
     rep.floor("overlay routing obligations", n, 4)
     # what a write session / copy creates through the overlay must be visible afterwards: the path's deletion marker is gone
     from . import c10
@@ -248,6 +255,7 @@ def run(facts, rep, tier, ctx):
         k += pra.generic_routes(A, "R04.4")
         k += c09.table_u(facts, A, wa, "R04.4u", only=("append_file",))
         k += overlay_read_delegation(facts, A, wa)
+        k += c09.resolver_rules(facts, A, wa, "R04.4r")
         k += c10.marker_rules(facts, A, wa, prefix="R04.4m", only=("R10.3",))
         k += read_to_string_rules(facts, A, wa, D)
         ha.read_rules(A, "R04.r")
